@@ -279,6 +279,12 @@ def run(tier):
             total.update(st)
             samples += smp
             res.violations.extend(common.Violation.from_json(v) for v in viols)
+    # map distributes over concatenation / tile / slice at a position that is followed by a 2-worker prefetch: the
+    # workers evaluate the stages concurrently (every source line a scheduling point, 1 preemption)
+    from vf.checks import _e2, c04
+    comp = [c for c in c04.composed(tier) if c['n'] == 2 and c['pre'][0] in ('tile2', 'concat_map', 'slice_rev', 'sort')]
+    _e2.run_matrix('C16', 'oracle_values', [(c, 'L', 1) for c in comp], res,
+                   'law positions followed by prefetch(2, 2): mode L, preemption bound 1', cap=40000)
     cnt, v = random_stage_laws(tier)
     total['law_instances'] += cnt
     total['transitions'] += cnt
@@ -288,9 +294,11 @@ def run(tier):
             seen.add(x.key)
             res.violations.append(x)
     res.violations.sort(key=lambda v: (len(v.replay.get('program', {}).get('ops', [])), v.key))
+    total['states'] += res.coverage.get('states', 0)
+    total['transitions'] += res.coverage.get('transitions', 0)
     res.coverage.update(
         states=total['states'], transitions=total['transitions'], traces_validated_against_impl=total['law_instances'],
-        law_instances=total['law_instances'], exhaustive=True, samples=common.sample(samples, 3),
+        law_instances=total['law_instances'], exhaustive=True, samples=common.sample(samples, 3) + res.coverage.get('samples', []),
         rule=f'states = programs over {len(STATE_OPS)} ops to depth {plans[0][0]} (and a {len(CORE_OPS)}-op core alphabet to depth '
              f'{plans[1][0]}); transitions = law instances attempted at a state (15 laws x their parameters: batch sizes 1..4, '
              f'k = 1..len, r = 1..3, 8 slices and all pairs of 6 slices, 3 permutations); both sides are real pipelines')
@@ -304,6 +312,9 @@ def run(tier):
 def replay(data):
     r = data['replay']
     res = common.Result()
+    if r.get('engine') == 'schedmc':
+        from vf.checks import _e2
+        return _e2.replay('C16', data)
     if r.get('engine') == 'random-laws':
         cnt, v = random_stage_laws('quick')
         res.violations = v[:1]
